@@ -13,16 +13,37 @@ type HarnessOpt struct {
 	// them as the parameter types of list-valued terms (assignable from, but
 	// not identical to, the []*Node / []Token the sugar produces).
 	NamedLists bool
+	// AnyRules: bit i set = the methods of rule i are declared to return `any`
+	// (terms referring to it have the Go type any / []any). NilSeed != 0: about
+	// half of the methods of those rules record their call and then return an
+	// untyped nil (see ReturnsNil).
+	AnyRules uint64
+	NilSeed  uint64
+}
+
+// IsAny reports whether rule ri is typed any.
+func (o HarnessOpt) IsAny(ri int) bool { return ri < 64 && o.AnyRules&(1<<uint(ri)) != 0 }
+
+// ReturnsNil reports whether the method with that id of rule ri returns nil.
+func (o HarnessOpt) ReturnsNil(ri, methodID int) bool {
+	if !o.IsAny(ri) || o.NilSeed == 0 {
+		return false
+	}
+	z := (uint64(methodID) + 1) * (o.NilSeed | 1) * 0x9E3779B97F4A7C15
+	return (z>>33)%2 == 0
 }
 
 // goType returns the Go parameter type of a term in the parser-only harness.
-func (g *Grammar) goType(t Term) string {
+func (g *Grammar) goType(t Term, opt HarnessOpt) string {
 	base := ""
 	switch t.Ref.Kind {
 	case KTok:
 		base = "Token"
 	case KRule:
 		base = "*Node"
+		if opt.IsAny(t.Ref.Idx) {
+			base = "any"
+		}
 	case KErr:
 		base = "Error"
 	}
@@ -52,7 +73,7 @@ func (g *Grammar) Methods(opt HarnessOpt) []MethodInfo {
 		for pi, p := range r.Prods {
 			sig := make([]string, len(p.Terms))
 			for i, t := range p.Terms {
-				sig[i] = g.goType(t)
+				sig[i] = g.goType(t, opt)
 			}
 			key := strings.Join(sig, ",")
 			// lox requires exactly one matching method per production, so
@@ -91,7 +112,7 @@ func (g *Grammar) Harness(opt HarnessOpt) (harness, internals, stub string) {
 		params := make([]string, len(p.Terms))
 		args := make([]string, len(p.Terms))
 		for i, t := range p.Terms {
-			ty := g.goType(t)
+			ty := g.goType(t, opt)
 			params[i] = fmt.Sprintf("a%d %s", i, ty)
 			if opt.NamedLists && (ty == "[]*Node" || ty == "[]Token") {
 				named := map[string]string{"[]*Node": "Nodes", "[]Token": "Toks"}[ty]
@@ -113,7 +134,14 @@ func (g *Grammar) Harness(opt HarnessOpt) (harness, internals, stub string) {
 			call += ", " + strings.Join(args, ", ")
 		}
 		call += ")"
-		fmt.Fprintf(&sb, "func (p *P) %s(%s) *Node { return %s }\n", m.Name, strings.Join(params, ", "), call)
+		switch {
+		case opt.ReturnsNil(m.Rule, m.ID):
+			fmt.Fprintf(&sb, "func (p *P) %s(%s) any { %s; return nil }\n", m.Name, strings.Join(params, ", "), call)
+		case opt.IsAny(m.Rule):
+			fmt.Fprintf(&sb, "func (p *P) %s(%s) any { return %s }\n", m.Name, strings.Join(params, ", "), call)
+		default:
+			fmt.Fprintf(&sb, "func (p *P) %s(%s) *Node { return %s }\n", m.Name, strings.Join(params, ", "), call)
+		}
 	}
 	sb.WriteString("\nfunc errs(es []Error) []hc.Err {\n\tout := make([]hc.Err, len(es))\n\tfor i, e := range es {\n\t\tout[i] = hc.Err{Tok: e.Token, Exp: e.Expected}\n\t}\n\treturn out\n}\n")
 	if opt.Bounds {
